@@ -31,7 +31,14 @@ class Deadline:
             cm = rng.choice([100, 250, 600, 900])
             d = min(ft, cm) if caller != "none" else ft
             dv = rng.choice([-1, -1, max(20, d - 120), d + 150])
-            items.append({"ft_ms": ft, "caller": caller, "caller_ms": cm, "deliver_ms": dv})
+            items.append({"ft_ms": ft, "caller": caller, "caller_ms": cm, "deliver_ms": dv, "join_ms": 0})
+        # a second caller joining a lookup already in flight has its OWN deadline: delivered after the first caller's
+        # deadline and before its own it gets the value; never delivered it returns at its own deadline, not earlier
+        for _ in range(4 if tier == "quick" else 24):
+            ft = rng.choice([400, 600])
+            join = rng.choice([ft // 2, ft // 3])
+            dv = rng.choice([-1, ft + (join // 2), ft + 20 + join // 3])
+            items.append({"ft_ms": ft, "caller": "none", "caller_ms": 0, "deliver_ms": dv, "join_ms": join})
         return [{"item": it} for it in items]
 
     @staticmethod
@@ -43,7 +50,7 @@ class Deadline:
         # (the better of the two measurements is kept; a lookup that is really late is late both times)
         def target(it):
             d = min(it["ft_ms"], it["caller_ms"]) if it["caller"] != "none" else it["ft_ms"]
-            dv = it["deliver_ms"]
+            dv = it["deliver_ms"] - it.get("join_ms", 0) if it["deliver_ms"] >= 0 else -1
             return dv if 0 <= dv < d else d
         late = [c for c in cases if out[c["id"]]["elapsed_ms"] > target(c["item"]) + 200]
         for c in late[:10]:
@@ -57,7 +64,9 @@ class Deadline:
         from .core import gN
         it = c["item"]
         caller = "None" if it["caller"] == "none" else "(Some %s)" % gN(it["caller_ms"])
-        dv = "None" if it["deliver_ms"] < 0 else "(Some %s)" % gN(it["deliver_ms"])
+        # for a joiner everything is measured from its own start
+        rel = it["deliver_ms"] - it.get("join_ms", 0) if it["deliver_ms"] >= 0 else -1
+        dv = "None" if rel < 0 else "(Some %s)" % gN(rel)
         res = {"val": "(Some (RVal 7))", "err": "(Some RErr)", "nil": "(Some RNil)", "bad": "(Some RBad)", "hang": "None"}[o["kind"]]
         return "Build_dl_case %s %s %s %s %s" % (gN(it["ft_ms"]), caller, dv, gN(o["elapsed_ms"]), res)
 
